@@ -13,24 +13,35 @@ for d in sorted(glob.glob("/verif/seeded/C*-m*")):
     subprocess.run(["git", "-C", REPO, "apply", os.path.join(d, "patch.diff")], check=True)
     try:
         ok, log, st = check.regen()
-        broken = {}
         for f in files:
-            rok, rlog = check.build_coq(["Refine/%s.vo" % f])
-            if not rok:
-                m = re.search(r'File "([^"]+)", line (\d+)', rlog)
-                lemma = None
-                if m:
-                    p = os.path.join(check.COQ, m.group(1))
-                    if os.path.exists(p):
-                        for l in reversed(open(p).read().splitlines()[:int(m.group(2))]):
-                            mm = re.match(r"\s*(?:Lemma|Theorem|Definition)\s+(\w+)", l)
-                            if mm:
-                                lemma = mm.group(1); break
-                broken[f] = {"at": (m.group(1) + ":" + m.group(2)) if m else "?", "lemma": lemma}
+            v = os.path.join(check.COQ, 'Refine', f + '.vo')
+            if os.path.exists(v):
+                os.remove(v)
+        broken = {}
+        targets = ["Refine/%s.vo" % f for f in files]
+        p = subprocess.run(["make", "-k", "-j16"] + targets, cwd=check.COQ, capture_output=True, text=True)
+        log = p.stdout + p.stderr
+        # every file whose compilation reported an error, with the lemma the error falls in
+        for m in re.finditer(r'File "\./(Refine/(\w+)\.v|Gen/(\w+)\.v)", line (\d+)', log):
+            path = m.group(1)
+            f = m.group(2) or ("Gen/" + m.group(3))
+            lemma = None
+            fp = os.path.join(check.COQ, path)
+            if os.path.exists(fp):
+                for l in reversed(open(fp).read().splitlines()[:int(m.group(4))]):
+                    mm = re.match(r"\s*(?:Lemma|Theorem|Definition)\s+(\w+)", l)
+                    if mm:
+                        lemma = mm.group(1); break
+            broken.setdefault(f, {"at": path + ":" + m.group(4), "lemma": lemma})
+        # files that did not get built because something they import failed
+        for f in files:
+            if f not in broken and not os.path.exists(os.path.join(check.COQ, "Refine", f + ".vo")):
+                broken[f] = {"at": "not built: an imported refinement file failed", "lemma": None}
         out[sid] = {"not_translated": st.get("not_translated"), "broken_refine_files": broken}
         print(sid, "->", {k: v["lemma"] for k, v in broken.items()} or "refinement intact", st.get("not_translated") or "", flush=True)
     finally:
         subprocess.run(["git", "-C", REPO, "checkout", "--", "."], check=True)
 check.regen()
+subprocess.run("coq_makefile -f _CoqProject -o Makefile", shell=True, cwd=check.COQ)
 check.build_coq([])
 json.dump(out, open("/verif/seeded/refine_matrix.json", "w"), indent=1)
